@@ -10,7 +10,17 @@ from harness.tlc import sany
 bad = 0
 mods = sorted(glob.glob("spec/**/*.tla", recursive=True))
 for m in mods:
-    ok, out = sany(Path(m).resolve())
+    if m.startswith("spec/apalache/"):
+        # typed specs for Apalache (EXTENDS Apalache, which is not on TLC's module path): parsed and type
+        # checked by Apalache itself
+        import subprocess, tempfile, shutil
+        d = tempfile.mkdtemp(prefix="verif_apa_")
+        p = subprocess.run(["apalache-mc", "typecheck", f"--out-dir={d}", os.path.basename(m)],
+                           cwd=os.path.dirname(m), capture_output=True, text=True)
+        shutil.rmtree(d, ignore_errors=True)
+        ok, out = p.returncode == 0, p.stdout + p.stderr
+    else:
+        ok, out = sany(Path(m).resolve())
     if not ok:
         bad += 1
         print("SANY FAILED:", m)
